@@ -128,6 +128,7 @@ def text_document(t, ctx, label):
 
     kids = []
     features = set()
+    direct_fonts = t.coin(25, 100, "doc.directfonts")
     cur = {b"F1": t.pick(names, "doc.f1"), b"F2": t.pick(names, "doc.f2")}
     for p in range(npages):
         if p and t.coin(45, 100, "doc.replace"):
@@ -148,6 +149,11 @@ def text_document(t, ctx, label):
         data, _ = gfx.serialise(prog, None)
         c = alloc(docs.content_stream(data, flate=t.coin(50, 100, "page.flate")))
         res = {b"Font": {k: font_ref(v) for k, v in cur.items()}}
+        if direct_fonts:
+            # font dictionaries written directly in the resources (no object number of their own)
+            for k in cur:
+                res[b"Font"][k] = VARIANTS[cur[k]][0](alloc, shared)
+            features.add("direct font dictionary")
         if p and t.coin(15, 100, "page.dropfont"):
             # the page uses a font name its resources do not define (falls back to the default font)
             del res[b"Font"][t.pick([b"F1", b"F2"], "page.drop")]
@@ -158,7 +164,18 @@ def text_document(t, ctx, label):
     objects[2] = {b"Type": Name(b"Pages"), b"Kids": kids, b"Count": len(kids)}
     form = t.pick(["table", "stream"], "doc.form")
     pack = [i for i in objects if t.coin(60, 100, "doc.pack")] if form == "stream" else None
-    data = docs.build_pdf(objects, 1, form=form, pack=pack).getvalue()
+    handler = None
+    extra = None
+    if t.coin(15, 100, "doc.encrypt"):
+        # an encrypted member of the pool (empty user password, so every API form opens it)
+        from . import crypt
+
+        v, r, bits, cfm = t.pick([(2, 3, 128, "V2"), (4, 4, 128, "AESV2"), (5, 6, 256, "AESV3"), (1, 2, 40, "V2")], "doc.enc.kind")
+        docid = bytes(t.draw(256, "doc.enc.id") for _ in range(16))
+        handler = crypt.Handler(v, r, bits, cfm, "", "owner", -44, docid, True, lambda n: bytes(t.draw(256, "doc.enc.rnd") for _ in range(n)))
+        extra = {b"Encrypt": handler.encrypt_dict(), b"ID": [Str(docid), Str(docid)]}
+        features.add("encrypted")
+    data = docs.build_pdf(objects, 1, form=form, pack=pack, encrypt=handler, trailer_extra=extra).getvalue()
     return {"name": label, "data": data, "pages": npages, "features": sorted(features)}
 
 
